@@ -110,4 +110,5 @@ def forward(ns, case, xs, dtype=np.float64, req=None):
 
 def reference(case, xs):
     op = NNOPS[case["op"]]
-    return op.ref([np.asarray(x, dtype=np.float64) if not sp["int"] else np.asarray(x) for sp, x in zip(operands_of(case), xs)], case["a"])
+    # (hard 0/1 labels held in small integer / bool arrays are the numbers 0.0 / 1.0 to the reference: no unsigned wrap-around, no bool arithmetic)
+    return op.ref([np.asarray(x, dtype=np.float64) if (not sp["int"] or sp.get("hard")) else np.asarray(x) for sp, x in zip(operands_of(case), xs)], case["a"])
